@@ -157,8 +157,113 @@ LEAF_TYPES: t.Dict[str, t.Callable[[], t.List[t.Any]]] = {
 for _k in DC_SPECS:
     LEAF_TYPES[_k] = (lambda k=_k: [dc_class(k)])
 
-ALL_LEAVES = list(LEAF_TYPES)
+ALL_LEAVES = list(LEAF_TYPES)      # leaves the reference model knows
 DC_LEAVES = list(DC_SPECS)
+
+
+# ------------------------------------------------------------------ extra leaves (no reference model; used by the
+# model-free checks C03 C04 C07 C08 C09): tagged unions, HasConverter classes, pane.types helpers, numpy arrays
+
+class EnumTuple(enum.Enum):
+    P = (1, 2)
+    Q = ('a',)
+
+
+_EXT_CACHE: t.Dict[str, t.Any] = {}
+
+
+def _ext(name):
+    r = _EXT_CACHE.get(name)
+    if r is not None:
+        return r
+    import pane
+    from pane.annotations import Tagged
+    from pane.converters import Converter
+    from pane.errors import ParseInterrupt, WrongTypeError
+    if not _EXT_CACHE:
+        def mk(nm, tagval, yty, ydef):
+            return pin(type(nm, (pane.PaneBase,), {'__annotations__': {'x': t.Literal[tagval], 'y': yty},
+                                                    'x': tagval, 'y': ydef, '__module__': 'mc.generated'}))
+        V1, V2 = mk('V1', 'v1', int, 1), mk('V2', 'v2', str, 's')
+        I1, I2 = mk('I1', 1, int, 1), mk('I2', 2, t.List[int], [])
+        _EXT_CACHE['V1'], _EXT_CACHE['V2'] = V1, V2
+        _EXT_CACHE['tag_int'] = pin(t.Annotated[t.Union[V1, V2], Tagged('x')])
+        _EXT_CACHE['tag_ext'] = pin(t.Annotated[t.Union[V1, V2], Tagged('x', external=True)])
+        _EXT_CACHE['tag_adj'] = pin(t.Annotated[t.Union[V1, V2], Tagged('x', external=('t', 'c'))])
+        _EXT_CACHE['tag_num'] = pin(t.Annotated[t.Union[I1, I2], Tagged('x', external=('t', 'c'))])
+
+        class Country:
+            def __init__(self, code):
+                self.code = code
+
+            def __eq__(self, other):
+                return type(other) is Country and other.code == self.code
+
+            def __hash__(self):
+                return hash(self.code)
+
+            def __repr__(self):
+                return f"Country({self.code!r})"
+
+            @classmethod
+            def _converter(cls, *args, handlers):
+                if args:
+                    raise TypeError("Country takes no type arguments")
+                return CountryConverter()
+
+        class CountryConverter(Converter):
+            codes = ('gb', 'us', 'cn')
+
+            def expected(self, plural=False):
+                return 'country codes' if plural else 'a country code'
+
+            def into_data(self, val):
+                return val.code if isinstance(val, Country) else val
+
+            def try_convert(self, val):
+                if isinstance(val, Country):
+                    return val
+                if not isinstance(val, str) or val not in self.codes:
+                    raise ParseInterrupt()
+                return Country(val)
+
+            def collect_errors(self, val):
+                if isinstance(val, Country):
+                    return None
+                if not isinstance(val, str):
+                    return WrongTypeError(self.expected(), val)
+                if val not in self.codes:
+                    return WrongTypeError(self.expected(), val, info=f"Unknown country code '{val}'")
+                return None
+        _EXT_CACHE['hasconv'] = pin(Country)
+        from pane.types import ValueOrList, Range
+        import numpy
+        _EXT_CACHE['vol_int'] = pin(ValueOrList[int])
+        _EXT_CACHE['vol_str'] = pin(ValueOrList[str])
+        _EXT_CACHE['range_int'] = pin(Range[int])
+        _EXT_CACHE['range_float'] = pin(Range[float])
+        _EXT_CACHE['ndarray'] = numpy.ndarray
+        _EXT_CACHE['ndarray_int'] = pin(numpy.ndarray[t.Any, numpy.dtype[numpy.int64]])
+        _EXT_CACHE['enum_tuple'] = EnumTuple
+    return _EXT_CACHE[name]
+
+
+EXT_LEAVES = ['tag_int', 'tag_ext', 'tag_adj', 'tag_num', 'hasconv', 'vol_int', 'vol_str', 'range_int', 'range_float',
+              'ndarray', 'ndarray_int', 'enum_tuple']
+for _k in EXT_LEAVES:
+    LEAF_TYPES[_k] = (lambda k=_k: [_ext(k)])
+EXT_MEMBERS = {
+    'tag_int': [{'x': 'v1', 'y': 3}, {'x': 'v2'}, {'y': 'q', 'x': 'v2'}],
+    'tag_ext': [{'v1': {'y': 3}}, {'v2': {}}],
+    'tag_adj': [{'t': 'v1', 'c': {'y': 3}}, {'c': {}, 't': 'v2'}],
+    'tag_num': [{'t': 1, 'c': {'y': 3}}, {'t': 2, 'c': {'y': [1, 2]}}],
+    'hasconv': ['gb', 'us'],
+    'vol_int': [5, [1, 2], []], 'vol_str': ['a', ['a', 'b']],
+    'range_int': [{'start': 0, 'end': 10, 'n': 11}, [0, 10, 11], {'start': 0, 'end': 10, 'step': 2}],
+    'range_float': [{'start': 0.0, 'end': 1.0, 'n': 3}, [0.5, 1, 2]],
+    'ndarray': [[[1, 2], [3, 4]], [1.5], 5, []], 'ndarray_int': [[1, 2], [[1], [2]], 3],
+    'enum_tuple': [(1, 2), ['a'], [1, 2]],
+}
 # leaves whose images are hashable (usable as set elements / dict keys)
 HASHABLE_LEAVES = ['int', 'float', 'complex', 'str', 'bytes', 'bool', 'none', 'decimal', 'fraction', 'date', 'time',
                    'datetime', 'pattern', 'purepath', 'enum_int', 'enum_str', 'enum_mixed', 'lit_str', 'lit_mixed',
@@ -168,6 +273,7 @@ CORE_LEAVES = ['int', 'float', 'str', 'bool', 'none', 'bytes', 'decimal', 'any']
 KEY_LEAVES = ['str', 'int', 'float', 'enum_str', 'lit_str', 'date']
 
 CONDS = ['positive', 'len_le2', 'nonempty', 'raises']
+EXT_CONDS = ['nonbool', 'even']       # user predicates: returns a non-bool truthy/falsy value; a pure parity test
 
 
 def cond_obj(name):
@@ -184,6 +290,10 @@ def cond_obj(name):
             def boom(v):
                 raise ZeroDivisionError("predicate exploded")
             c = A.Condition(boom, 'boom')
+        elif name == 'nonbool':
+            c = A.Condition(lambda v: 'yes' if v else '', 'truthy')
+        elif name == 'even':
+            c = A.Condition(lambda v: v % 2 == 0, 'even')
         else:
             raise KeyError(name)
         _COND_CACHE[name] = pin(c)
@@ -354,6 +464,29 @@ def composites_over(inner: t.List[t.Any], second: t.List[t.Any], keys: t.List[t.
             yield ['annot', x, c]
 
 
+def expressions_ext(tier: str) -> t.List[t.Any]:
+    """expressions(tier) plus every one-level composite over the model-free extra leaves and user conditions."""
+    out = list(expressions(tier))
+    seen = {_key(e) for e in out}
+    extra = list(EXT_LEAVES)
+    for e in composites_over(EXT_LEAVES, ['int', 'none', 'str'], ['str']):
+        extra.append(e)
+    for base in ('int', 'str', 'float', ['list', 'int'], 'any', 'bool'):
+        for c in EXT_CONDS:
+            extra.append(['annot', base, c])
+            extra.append(['list', ['annot', base, c]])
+            extra.append(['union', ['annot', base, c], 'none'])
+    # members whose own error node is a sum (Annotated[Union], mixed enum) inside an outer union
+    extra += [['union', ['annot', ['union', 'int', 'none'], 'even'], 'bytes'],
+              ['list', ['union', 'tag_adj', 'int']], ['dict', 'str', 'tag_int'], ['dict', 'vol_int', 'int'],
+              ['dict', 'vol_str', 'any'], ['set', 'vol_int']]
+    for e in extra:
+        if _key(e) not in seen:
+            seen.add(_key(e))
+            out.append(e)
+    return out
+
+
 def expressions(tier: str) -> t.List[t.Any]:
     """The finite expression set of a tier, simplest first, deduplicated."""
     out: t.List[t.Any] = []
@@ -370,6 +503,16 @@ def expressions(tier: str) -> t.List[t.Any]:
     for e in composites_over(ALL_LEAVES, CORE_LEAVES, KEY_LEAVES):
         add(e)
     # a few three-member unions with deliberate overlap
+    # key / element types whose images are unhashable (the mapping or set cannot be built)
+    for e in (['dict', ['list', 'str'], 'int'], ['dict', 'bare_list', 'int'], ['dict', ['tuplevar', ['list', 'int']], 'int'],
+              ['counter', ['list', 'int']], ['dict', 'bare_dict', 'str'], ['set', ['tuplevar', 'bare_list']],
+              ['dict', ['union', 'int', ['list', 'int']], 'int']):
+        add(e)
+    # members whose own error node is a sum (Annotated[Union], mixed enum) inside an outer union; raising conditions in unions
+    for e in (['union', 'str', ['annot', ['union', 'int', 'float'], 'positive']], ['union', 'enum_mixed', ['list', 'int']],
+              ['optional', ['annot', 'str', 'positive']], ['union', ['annot', 'int', 'raises'], 'str'],
+              ['union', ['annot', 'str', 'raises'], 'int'], ['list', ['union', ['annot', 'int', 'raises'], 'none']]):
+        add(e)
     for tri in (['union', 'int', 'float', 'str'], ['union', 'str', 'int', 'none'], ['union', 'bool', 'int', 'float'],
                 ['union', 'lit_str', ['list', 'int'], 'none'], ['union', 'dc_struct', 'dc_both', 'str']):
         add(tri)
